@@ -915,7 +915,16 @@ fn format_subexpression(
                 format_unary_op(op, output)?;
             } else {
                 format_unary_op(op, output)?;
+                let inner_start = output.len();
                 format_subexpression(inner, prec, OperatorSide::Right, output, context)?;
+                // Keep the operator apart from an operand that starts with the same character
+                // Otherwise -(-x) reads back as --x and +(++x) as ++(+x)
+                let op_char = output.as_bytes()[inner_start - 1];
+                if matches!(op_char, b'+' | b'-' | b'&')
+                    && output.as_bytes().get(inner_start) == Some(&op_char)
+                {
+                    output.insert(inner_start, ' ');
+                }
             }
         }
         ast::Expression::BinaryOperation(op, left, right) => {
